@@ -90,9 +90,10 @@ type biLive struct {
 }
 
 type biRun struct {
-	c    *core.Ctx
-	hist []string
-	bad  bool
+	c      *core.Ctx
+	hist   []string
+	bad    bool
+	sparse bool // observe only every few calls (done by the caller)
 }
 
 func (br *biRun) fail(sig, msg string) {
@@ -142,6 +143,9 @@ func (br *biRun) apply(l *biLive, o biOp) bool {
 		l.m.ps = nil
 	}
 	c.Count("calls", 1)
+	if br.sparse {
+		return true
+	}
 	return br.check(l, o.name())
 }
 
@@ -254,10 +258,19 @@ func runC11(c *core.Ctx) {
 		}
 		return
 	}
+	if c.Index%16 == 9 {
+		c11big(c)
+		return
+	}
 	// random: longer histories, from the zero value or from a clone, continuing on both
 	br := &biRun{c: c}
 	live := []*biLive{{b: &maps.Bimap[int, string]{}, m: &bimodel{}}}
 	nops := r.Range(1, 60)
+	obsEvery := 1
+	if r.Chance(1, 3) {
+		obsEvery = r.Range(2, 5)
+	}
+	br.sparse = obsEvery > 1
 	var hh uint64 = 2
 	for i := 0; i < nops; i++ {
 		li := r.Intn(len(live))
@@ -288,6 +301,10 @@ func runC11(c *core.Ctx) {
 		}
 		hh = core.Mix(hh, core.HashString(br.hist[len(br.hist)-1]))
 		// every live map is re-checked: a clone must not change with its origin
+		// (in a third of the histories only every 2..5 calls)
+		if i%obsEvery != obsEvery-1 && i != nops-1 {
+			continue
+		}
 		for _, x := range live {
 			if !br.check(x, "independence") {
 				return
@@ -298,4 +315,139 @@ func runC11(c *core.Ctx) {
 		c.NonTrivial(hh)
 	}
 	c.Count("random_histories", 1)
+}
+
+// c11big: hundreds to thousands of pairs (size-dependent paths of a re-implemented
+// Clear/Clone/Add), against a map-pair model; full consistency sweep over both
+// directions after every phase.
+func c11big(c *core.Ctx) {
+	r := c.R
+	b := &maps.Bimap[int, string]{}
+	fw := map[int]string{}
+	rv := map[string]int{}
+	var hist []string
+	fail := func(sig, msg string) {
+		c.Violate("big:"+sig, msg+fmt.Sprintf(" [after %v]", hist), map[string]any{"phases": hist})
+	}
+	val := func(i int) string { return fmt.Sprintf("v%d", i) }
+	n := r.Range(200, 3000)
+	sweep := func(bm *maps.Bimap[int, string], f map[int]string, rvm map[string]int, what string) bool {
+		if bm.Len() != len(f) {
+			fail(what+":Len", fmt.Sprintf("Len()=%d, model has %d pairs", bm.Len(), len(f)))
+			return false
+		}
+		for k := -1; k <= n+1; k++ {
+			v, ok := bm.GetForward(k)
+			wv, wok := f[k]
+			if ok != wok || (ok && v != wv) || bm.ContainsForward(k) != wok {
+				fail(what+":forward", fmt.Sprintf("GetForward(%d)=(%q,%v), model (%q,%v)", k, v, ok, wv, wok))
+				return false
+			}
+			kk, ok := bm.GetReverse(val(k))
+			wk, wok := rvm[val(k)]
+			if ok != wok || (ok && kk != wk) || bm.ContainsReverse(val(k)) != wok {
+				fail(what+":reverse", fmt.Sprintf("GetReverse(%q)=(%d,%v), model (%d,%v) - the reverse direction disagrees", val(k), kk, ok, wk, wok))
+				return false
+			}
+		}
+		cnt := 0
+		bm.Range(func(k int, v string) bool { cnt++; return f[k] == v })
+		if cnt != len(f) {
+			fail(what+":Range", fmt.Sprintf("Range visited %d pairs, model has %d", cnt, len(f)))
+			return false
+		}
+		return true
+	}
+	add := func(k int, v string) {
+		if ov, ok := fw[k]; ok {
+			delete(rv, ov)
+		}
+		if ok2, ok := rv[v]; ok {
+			delete(fw, ok2)
+		}
+		fw[k], rv[v] = v, k
+		b.Add(k, v)
+	}
+	for i := 0; i < n; i++ {
+		add(i, val(i))
+	}
+	hist = append(hist, fmt.Sprintf("Add x %d", n))
+	if !sweep(b, fw, rv, "fill") {
+		return
+	}
+	for phase := 0; phase < 5; phase++ {
+		switch r.Intn(5) {
+		case 0:
+			hist = append(hist, "Clear")
+			b.Clear()
+			fw, rv = map[int]string{}, map[string]int{}
+		case 1:
+			hist = append(hist, "Clone+continue-on-clone")
+			cl := b.Clone()
+			// the original must stay intact when the clone changes
+			cl.Add(-5, "clone-only")
+			cl.RemoveForward(0)
+			if !sweep(b, fw, rv, "original-after-clone-mutation") {
+				return
+			}
+			cf, cr := map[int]string{}, map[string]int{}
+			for k, v := range fw {
+				cf[k], cr[v] = v, k
+			}
+			cf[-5], cr["clone-only"] = "clone-only", -5
+			if v, ok := cf[0]; ok {
+				delete(cr, v)
+				delete(cf, 0)
+			}
+			b, fw, rv = &cl, cf, cr
+			if v, ok := fw[-5]; !ok || v != "clone-only" {
+				fail("clone", "model inconsistency")
+				return
+			}
+			delete(rv, "clone-only")
+			delete(fw, -5)
+			b.RemoveForward(-5)
+		case 2:
+			m := r.Range(1, n)
+			hist = append(hist, fmt.Sprintf("colliding Add x %d", m))
+			for i := 0; i < m; i++ {
+				add(r.Intn(n), val(r.Intn(n)))
+			}
+		case 3:
+			m := r.Range(1, n)
+			hist = append(hist, fmt.Sprintf("RemoveForward/Reverse x %d", m))
+			for i := 0; i < m; i++ {
+				if r.Bool() {
+					k := r.Intn(n)
+					if v, ok := fw[k]; ok {
+						delete(rv, v)
+						delete(fw, k)
+					}
+					b.RemoveForward(k)
+				} else {
+					v := val(r.Intn(n))
+					if k, ok := rv[v]; ok {
+						delete(fw, k)
+						delete(rv, v)
+					}
+					b.RemoveReverse(v)
+				}
+			}
+		case 4:
+			m := r.Range(1, n)
+			hist = append(hist, fmt.Sprintf("refill x %d", m))
+			for i := 0; i < m; i++ {
+				add(i, val(i))
+			}
+		}
+		if !sweep(b, fw, rv, hist[len(hist)-1][:5]) {
+			return
+		}
+	}
+	c.Count("big_histories", 1)
+	c.Max("max_pairs", int64(n))
+	c.NonTrivial(core.Mix(c.Seed, 11))
+	if c.WantSample() {
+		c.Sample(map[string]any{"big": true, "pairs": n, "phases": hist})
+	}
 }
